@@ -18,7 +18,7 @@ BATCH = True      # many runs per forked child, state restored in place between 
 RULE = ('seeded generation of 2-4 threads x 1-4 public-API operations (BeartypeConf, TypeHint, is_bearable, '
         'die_if_unbearable, @beartype + call, is_subhint, infer_hint, TypeHint wrapper use (children, comparisons, checks), claw registrations/queries, beartyping blocks) '
         'over shared-cold, shared-warm and private hints, a 0-3 operation sequential prelude, and a seeded schedule '
-        '(uniform / hot-region / PCT) deciding every line-level switch inside beartype; a run is non-trivial when at '
+        '(uniform / hot-region / hot-points / after-pool-call / PCT) deciding every line-level switch inside beartype; a run is non-trivial when at '
         'least one pre-emption actually happened, distinct = distinct (task,file,line) event digests')
 INTERLEAVING_MEASURE = 'distinct digests of the (task, file, line) event sequence; switch_pairs = distinct (from-line, to-line) pre-emption pairs'
 COMPONENTS = {
